@@ -250,6 +250,11 @@ def replay(ob):
                 variants.append(("permuted", at[p]))
                 # translated
                 t = at.copy(); t.translate(rng.uniform(-5, 5, 3)); variants.append(("translated", t))
+                # anisotropic supercells (the lattice of such a cell has lost point operations)
+                if len(at) <= 110:
+                    variants.append(("2x1x1 supercell", at.repeat((2, 1, 1))))
+                if len(at) <= 40:
+                    variants.append(("1x2x3 supercell, atoms permuted", at.repeat((1, 2, 3))[rng.permutation(6 * len(at))]))
                 # origin moved by each tabulated normalizer's translation part (a symmetry-equivalent description)
                 INFO, WY, NZ = tabvc.load_tables()
                 for k, nz in enumerate(NZ.get(sg, [])[:4]):
